@@ -3,6 +3,10 @@ CLAIMS = {
  'C06': dict(category='proof',
    text='Rotations proved for all inputs against neighbourhood contracts that state the header picture, frame included (class P).',
    note='Trusted: clang AST + frg2c lowering, CBMC 6.11 DFCC/SAT, comparator stub (pure, by key). Induction from local steps to unbounded trees is a hand argument.'),
+
+ 'C18': dict(category='proof',
+   text='bitset<N> (9 sizes incl. multiples of 64 and neighbours): every mutator/query/constructor/proxy operation proved bit-for-bit against the std::bitset semantics for all contents, all positions and ALL 2^64 shift amounts, incl. frame and the bits>=N invariant (class Pc, loops over <=4 words fully unrolled); array accessors proved to return the std::array addresses; pcg32 step/seed/bounded-draw contracts proved (z3 for the 64-bit multiply); mt19937 and insertion_sort are bounded stand-ins (reference vector; arrays of length <=5/6).',
+   note='Trusted: clang AST + frg2c lowering (layout self-check on every run), CBMC 6.11 DFCC, SAT and z3 back ends. bitset verified per listed N, not for all N in one proof. mt19937 only bounded (reference outputs for two seeds); array_concat not covered (std::tuple_size_v outside the lowered AST).'),
 }
 _ALL = ['C%02d' % i for i in range(1, 21)]
 NOT_APPLICABLE = {p: 'check not built yet in this session (planned, see DESIGN.md section 7); not a statement about the technique' for p in _ALL if p not in CLAIMS}
